@@ -21,6 +21,7 @@ def tasks(tier, seed):
     ts += [{"kind": "rnd_re", "count": 200 if q else 1500, "seed": seed * 10 + i} for i in range(2 if q else 8)]
     ts += [{"kind": "cfg", "part": i, "parts": 4, "stride": 12 if q else 1} for i in range(4)]
     ts += [{"kind": "rnd_cfg", "count": 150 if q else 800, "seed": seed * 10 + i} for i in range(2 if q else 8)]
+    ts += [{"kind": "dense_cfg", "count": 100 if q else 400, "seed": seed * 10 + i} for i in range(2 if q else 8)]
     ts += [{"kind": "pda", "part": i, "parts": 4, "stride": 40 if q else 4} for i in range(4)]
     ts += [{"kind": "rnd_pda", "count": 80 if q else 500, "seed": seed * 10 + i} for i in range(2 if q else 8)]
     ts += [{"kind": "nfa_like_pda", "count": 150 if q else 800, "seed": seed * 10 + i} for i in range(2 if q else 8)]
@@ -122,6 +123,9 @@ def drive(task):
     elif k == "rnd_cfg":
         for i in range(task["count"]):
             yield from build_events(cfgsrc.random_src(rng, cnf=rng.random() < 0.4))
+    elif k == "dense_cfg":
+        for i in range(task["count"]):
+            yield from build_events(cfgsrc.dense_src(rng), ns=[4])
     elif k == "pda":
         for i, src in enumerate(pdasrc.small_pdas(3)):
             if i % task["parts"] == task["part"] and (i // task["parts"]) % task["stride"] == 0:
@@ -169,7 +173,7 @@ def nontrivial(e):
 
 def check(tier, seed):
     return base.standard_check(PID, tier, seed, tasks(tier, seed), MODELS[tier], RULE, nontrivial,
-                               assumptions=["n <= 3", "PDA equality judged only when no closure on any word <= n can "
+                               assumptions=["n <= 3 (n = 4 for dense CNF grammars)", "PDA equality judged only when no closure on any word <= n can "
                                             "exceed the limit (otherwise: enumerated words must still be in the "
                                             "language)"])
 
